@@ -157,9 +157,15 @@ def run(ctx):
             if where == "out":
                 x[rng.randrange(n)] = -dy(rng, 0.25, 2)
             elif where == "edge":
-                x[rng.randrange(n)] = 0.0
-                if rng.random() < 0.5:
-                    p[0] = [rng.choice([0.5, 1.0, 2.0])]
+                j0 = rng.randrange(n)
+                x[j0] = 0.0
+                c = rng.random()
+                if c < 0.4:
+                    p[0] = [rng.choice([0.5, 1.0, 1.0, 2.0])]
+                elif len(p[0]) > 1:
+                    p[0][j0] = rng.choice([0.5, 1.0, 1.0, 2.0])
+                if rng.random() < 0.3:
+                    x = [0.0] * n                      # the all-zero evaluation point
         elif fam == "invgamma":
             p = [vs(lambda: dy(rng, 0.5, 5)), vs(lambda: dy(rng, -2, 2)), vs(lambda: dy(rng, 0.25, 4))]
             loc = lambda j: p[1][0] if len(p[1]) == 1 else p[1][j]
@@ -227,25 +233,57 @@ def run(ctx):
                     return None
                 return float(sum(sps.cauchy.logpdf(x[j], P[0][j], P[1][j]) for j in range(n)))
             if fam == "gamma":
-                if np.any(x == 0):
-                    return None          # boundary point of the support: density value is a convention
                 if np.any(x < 0):
                     return float("-inf")
                 a, r = P[0], P[1]
+                if np.any(x == 0):
+                    # boundary of the (closed) support: the documented formula rate^a x^(a-1) e^(-rate x)/Gamma(a) read
+                    # with 0^0 = 1 (a = 1: log(rate);  a > 1: -inf;  a < 1: +inf), or the open-support convention -inf;
+                    # never nan
+                    tot, pos, neg = 0.0, False, False
+                    for j in range(n):
+                        if x[j] == 0:
+                            if a[j] == 1:
+                                tot += math.log(r[j])
+                            elif a[j] > 1:
+                                neg = True
+                            else:
+                                pos = True
+                        else:
+                            tot += a[j] * math.log(r[j]) + (a[j] - 1) * math.log(x[j]) - r[j] * x[j] - spsp.gammaln(a[j])
+                    if pos and neg:
+                        return None
+                    closed = float("inf") if pos else (float("-inf") if neg else float(tot))
+                    return [closed, float("-inf")]
                 return float(sum(a[j] * math.log(r[j]) + (a[j] - 1) * math.log(x[j]) - r[j] * x[j] - spsp.gammaln(a[j]) for j in range(n)))
             if fam == "invgamma":
                 a, b, g = P
-                if np.any(x == b):
-                    return None
                 if np.any(x < b):
                     return float("-inf")
+                if np.any(x == b):
+                    return [float("-inf")]        # (x-b)^(-a-1) e^(-g/(x-b)) -> 0 at the boundary
                 return float(sum((-a[j] - 1) * math.log(x[j] - b[j]) - g[j] / (x[j] - b[j]) + a[j] * math.log(g[j]) - spsp.gammaln(a[j]) for j in range(n)))
             if fam == "beta":
                 a, b = P[0], P[1]
-                if np.any(x == 0) or np.any(x == 1):
-                    return None
                 if np.any(x < 0) or np.any(x > 1):
                     return float("-inf")
+                if np.any(x == 0) or np.any(x == 1):
+                    # closed-support reading of x^(a-1)(1-x)^(b-1)/B(a,b) with 0^0 = 1, or the open-support convention -inf
+                    tot, pos, neg = 0.0, False, False
+                    for j in range(n):
+                        for base, ex in ((x[j], a[j] - 1), (1 - x[j], b[j] - 1)):
+                            if base == 0:
+                                if ex > 0:
+                                    neg = True
+                                elif ex < 0:
+                                    pos = True
+                            else:
+                                tot += ex * math.log(base)
+                        tot -= spsp.betaln(a[j], b[j])
+                    if pos and neg:
+                        return [float("-inf")]
+                    closed = float("inf") if pos else (float("-inf") if neg else float(tot))
+                    return [closed, float("-inf")]
                 return float(sum((a[j] - 1) * math.log(x[j]) + (b[j] - 1) * math.log(1 - x[j]) - spsp.betaln(a[j], b[j]) for j in range(n)))
             if fam == "uniform":
                 lo, hi = P[0], P[1]
@@ -287,6 +325,28 @@ def run(ctx):
                 n = [2, 3, 6][i]; x, p = gen_params(fam, n, "in")
                 p = [[v[0]] if v else v for v in p]; mode = "array"
             cases.append((fam, n, where, x, p, mode))
+    # ---- input class "exact-zero / support-boundary evaluation points", every family (run in every tier and seed)
+    for n in (1, 3):
+        z = [0.0] * n
+        for a in ([1.0], [0.5], [2.0], ([1.0, 2.0, 0.5] if n == 3 else [1.0])):
+            for r in ([1e-4], [2.0]):
+                cases.append(("gamma", n, "edge", list(z), [list(a), list(r), []], "array"))          # Gamma(1, 1e-4) hyper-prior at 0
+                cases.append(("gamma", n, "edge", [0.0] + [1.5] * (n - 1), [list(a), list(r), []], "array1"))
+        for a in ([1.0], [0.5], [2.0]):
+            for b in ([1.0], [3.0]):
+                cases.append(("beta", n, "edge", list(z), [list(a), list(b), []], "array"))
+                cases.append(("beta", n, "edge", [1.0] * n, [list(b), list(a), []], "array"))
+        cases.append(("invgamma", n, "edge", [0.5] * n, [[2.0], [0.5], [1.0]], "array"))
+        cases.append(("invgamma", n, "edge", list(z), [[1.0], [0.0], [2.0]], "array"))
+        cases.append(("uniform", n, "edge", [-1.0] * n, [[-1.0], [2.0], []], "array"))
+        cases.append(("uniform", n, "edge", [2.0] * n, [[-1.0] * n, [2.0] * n, []], "array"))
+        cases.append(("uniform", n, "edge", list(z), [[0.0], [2.0], []], "array"))
+        for fam in ("normal", "laplace", "cauchy", "smoothedlaplace"):
+            third = [0.5] if fam == "smoothedlaplace" else []
+            cases.append((fam, n, "edge", list(z), [[0.0], [2.0], third], "array"))                        # x = location = 0 exactly
+            cases.append((fam, n, "edge", [1.5] * n, [[1.5] * n if fam != "laplace" else [1.5], [0.5] if fam == "laplace" else [0.5] * n, third], "array"))
+            cases.append((fam, n, "edge", list(z), [[1.0], [0.25], third], "array"))                       # the all-zero point
+        cases.append(("mhn", n, "in", [1.0] * n, [[2.0], [2.0], [2.0]], "array"))
 
     lines, built = [], []
     for (fam, n, where, x, p, mode) in cases:
@@ -340,11 +400,15 @@ def run(ctx):
             fail = oracle_mhn(dist, x, p, n, istat, ival)
         else:
             ref = reference(fam, x, p, n)
+            allowed = ref if isinstance(ref, list) else ([ref] if ref is not None else None)
+            ref = allowed[0] if allowed else None
             if istat == "raise":
                 if ref is not None and math.isfinite(ref) and mode != "cond":
                     fail = (ref, f"raises {ival}", "no log-density value for a documented way of passing the parameters")
-            elif ref is not None and not close(ref, ival, ORTOL):
-                fail = (ref, ival, "logpdf is not the logarithm of the documented density")
+            elif allowed is not None and not any(close(r, ival, ORTOL) for r in allowed):
+                fail = (allowed if len(allowed) > 1 else ref, ival,
+                        "logpdf is not the logarithm of the documented density" +
+                        (" (boundary point of the support: neither the documented formula's value there nor -inf)" if len(allowed) > 1 or where == "edge" else ""))
             elif ref is None and not tie_ok and dist is not None:
                 # boundary of the support / invalid parameter: search next to the point
                 x2 = list(x)
@@ -695,6 +759,8 @@ def gauss_section(ctx, D, G, rng, nrng, S, thorough, bump, hist):
             A = np.array([[1.0, 1.0], [1.0, 1.0]]); Mv = A.tolist(); obj = A; mkind = "dense"
         mu = [dy(rng, -2, 2)] if rng.random() < 0.4 else [dy(rng, -2, 2) for _ in range(n)]
         x = [dy(rng, -3, 3) for _ in range(n)]
+        if rng.random() < 0.12:
+            x = [mu[0] if len(mu) == 1 else mu[j] for j in range(n)] if rng.random() < 0.5 else [0.0] * n   # x = mean exactly / all-zero point
         lines.append(f"gauss {form} {mkind} {n} {qv(x)} {qv(mu)} {qm(Mv)}")
         meta.append((form, kind, mkind, n, obj, Mv, mu, x))
     outs = ctx.lean.drive(lines)
@@ -742,7 +808,9 @@ def gauss_section(ctx, D, G, rng, nrng, S, thorough, bump, hist):
                 mism.append("model: logpdf refused; implementation returned a value")
             elif t[0] == "nologdet":
                 if g is None:
-                    mism.append("model: constructed (logpdf refused); implementation: constructor raised")
+                    # both are refusals of the normalised log-density; `sparse_cholesky` (splu with natural ordering) may
+                    # already refuse in the constructor — its pivoting is not modelled
+                    ctx.note(f"sparse-full {form} dim {n}: constructor refuses ({cerr}) where the model refuses only logpdf")
                 else:
                     # un-normalised density is still offered: -0.5 * quad
                     with quiet():
@@ -903,6 +971,8 @@ def mrf_section(ctx, D, G, rng, S, thorough):
                     prec = rng.choice([0.5, 1.0, 2.0, 4.0])
                     mu = [dy(rng, -2, 2)] if rng.random() < 0.3 else [dy(rng, -2, 2) for _ in range(dim)]
                     x = [dy(rng, -3, 3) for _ in range(dim)]
+                    if rng.random() < 0.15:
+                        x = [mu[0] if len(mu) == 1 else mu[j] for j in range(dim)] if rng.random() < 0.5 else [0.0] * dim   # x = mean exactly / all-zero point
                     lines.append(f"gmrf {pd} {order} {bc} {n} {q(prec)} {qv(x)} {qv(mu)}")
                     meta.append(("gmrf", pd, order, bc, n, prec, mu, x))
     for fam in ("lmrf", "cmrf"):
@@ -913,6 +983,8 @@ def mrf_section(ctx, D, G, rng, S, thorough):
                     s = rng.choice([0.5, 1.0, 2.0, 0.25])
                     loc = [dy(rng, -2, 2)] if rng.random() < 0.3 else [dy(rng, -2, 2) for _ in range(dim)]
                     x = [dy(rng, -3, 3) for _ in range(dim)]
+                    if rng.random() < 0.15:
+                        x = [loc[0] if len(loc) == 1 else loc[j] for j in range(dim)] if rng.random() < 0.5 else [0.0] * dim   # exact-zero differences / all-zero point
                     lines.append(f"mrf {fam} {pd} {bc} {n} {q(s)} {qv(x)} {qv(loc)}")
                     meta.append((fam, pd, 1, bc, n, s, loc, x))
     outs = ctx.lean.drive(lines)
@@ -1505,8 +1577,19 @@ F32TOL = 2e-5      # float32 parameters make numpy compute in single precision (
 SCALAR_VARIANTS = [("pyint", lambda v: int(v)), ("np.int64", lambda v: np.int64(v)), ("np.int32", lambda v: np.int32(v)),
                    ("np.float32", lambda v: np.float32(v)), ("len1-int-array", lambda v: np.array([int(v)])),
                    ("0d-int-array", lambda v: np.array(int(v))), ("0d-float-array", lambda v: np.array(float(v)))]
+def _readonly(a):
+    a = np.array(a); a.setflags(write=False); return a
+
+
+def _strided(a):
+    a = np.array(a, dtype=float)
+    big = np.zeros(tuple(2 * k for k in a.shape)); big[tuple(slice(None, None, 2) for _ in a.shape)] = a
+    return big[tuple(slice(None, None, 2) for _ in a.shape)]          # non-contiguous view holding the same numbers
+
+
 VECTOR_VARIANTS = [("int-list", lambda v: [int(t) for t in v]), ("int64-array", lambda v: np.array(v).astype(np.int64)),
-                   ("int32-array", lambda v: np.array(v).astype(np.int32)), ("float32-array", lambda v: np.array(v).astype(np.float32))]
+                   ("int32-array", lambda v: np.array(v).astype(np.int32)), ("float32-array", lambda v: np.array(v).astype(np.float32)),
+                   ("strided-float64-array", _strided), ("readonly-float64-array", lambda v: _readonly(np.array(v, dtype=float)))]
 
 
 def dtype_section(ctx, D, G, rng, S):
@@ -1635,7 +1718,7 @@ def dtype_section(ctx, D, G, rng, S):
                     model_raises=zero_d and zd.get(fam) == "1", skip=skip)
         # integer evaluation points
         if fam not in ("beta", "uniform"):
-            for xl, xo in (("int64-x", xa.astype(np.int64)), ("int-list-x", [int(t) for t in x])):
+            for xl, xo in (("int64-x", xa.astype(np.int64)), ("int-list-x", [int(t) for t in x]), ("strided-x", _strided(xa)), ("readonly-x", _readonly(xa))):
                 if fam == "invgamma" and any(float(t) != int(t) for t in x):
                     continue
                 desc = {"family": fam, "dim": n, "variant": xl, "params": p, "x": x}
@@ -1693,6 +1776,9 @@ def dtype_section(ctx, D, G, rng, S):
             objs.append(("dense", "int64-matrix", tri.astype(np.int64), tri.tolist(), "dense"))
             objs.append(("dense", "int32-matrix", tri.astype(np.int32), tri.tolist(), "dense"))
             objs.append(("dense", "float32-matrix", tri.astype(np.float32), tri.tolist(), "dense"))
+            objs.append(("dense", "fortran-order-matrix", np.asfortranarray(tri), tri.tolist(), "dense"))
+            objs.append(("dense", "strided-matrix", _strided(tri), tri.tolist(), "dense"))
+            objs.append(("dense", "readonly-matrix", _readonly(tri), tri.tolist(), "dense"))
             objs.append(("sparse-diag", "int64-csr", spa.csr_matrix(np.diag(vecv).astype(np.int64)), np.diag(vecv).tolist(), "sparse"))
             objs.append(("sparse-diag", "int64-dia", spa.diags(np.array(vecv).astype(np.int64)), np.diag(vecv).tolist(), "sparse"))
             if n < 10:
